@@ -1280,6 +1280,10 @@ class Evaluator:
                         return self.mk_fstr(out)
             if name == "format":
                 return ("opaque", "str.format", (recv, *map(self.snapshot, args)))
+        if t == "wrap" and recv[1] in WRAPPERS and name == "copy" and not args:
+            c = self.new_coll("set" if recv[1] in ("set", "frozenset") else "list")  # a fresh, mutable copy
+            self.add_item(c, recv, splat=True)
+            return ("mcoll", c.cid)
         if t in ("sym", "var", "index", "attr", "valof", "coll", "wrap", "setop", "get", "concat", "stage", "keys", "values", "items", "boolop", "inst"):
             r = self.pure_method(recv, name, args, kwargs, node)
             if r is not None:
@@ -1309,6 +1313,8 @@ class Evaluator:
             return out
         if name == "copy" and not a:
             return s
+        if name == "__contains__" and len(args) == 1:
+            return self.contains(recv, args[0])
         if name in ("issubset", "issuperset", "isdisjoint", "startswith", "endswith", "__contains__"):
             return ("cmp", name, s, a[0]) if a else None
         return None
@@ -1324,6 +1330,18 @@ class Evaluator:
         cond = c_and([e[1] for e in since if e[0] == "if"])
         new = make(cur)
         m.items = [("splat", new if cond == TRUE else ("ite", cond, new, cur))]
+
+    def delete_at(self, m: MColl, ref, i, node):
+        """`del xs[i]` / `xs.pop(i)` on a list: what remains is xs[:i] + xs[i+1:]; returns the removed element."""
+        cur = self.snapshot(ref)
+        pos = self.snapshot(i)
+        removed = ("index", cur, pos)
+        nxt = ("const", pos[1] + 1) if _is_int(pos) and pos[1] >= 0 else ("arith", "+", pos, ("const", 1))
+        if _is_int(pos) and pos[1] < 0:
+            self.problem("element removed at a position counted from the end", node)
+            return removed
+        self.replace_content(m, ref, lambda c: ("concat", ("slice", c, NONE, pos, NONE), ("slice", c, nxt, NONE, NONE)), node)
+        return removed
 
     def unique_key(self, item) -> bool:
         """The key of `d[k] = v` stored under binders cannot collide with the key of another element: k is the loop variable
@@ -1467,6 +1485,8 @@ class Evaluator:
             return ("mcoll", c.cid)
         if name in ("sort", "reverse"):
             return NONE
+        if name in ("pop", "__delitem__") and len(args) == 1 and m.kind == "list" and not kwargs:
+            return self.delete_at(m, ref, args[0], node)
         if name in ("pop", "popitem", "clear", "__delitem__"):
             return self.problem(f"{name}() on a collection being built", node)
         r = self.pure_method(ref, name, args, kwargs, node)
@@ -1566,6 +1586,23 @@ class Evaluator:
             return self.problem("super() outside a method", node)
         return ("opaque", f"builtin {name}", tuple(self.snapshot(x) for x in a))
 
+    def filter_like(self, pred, iterable, negate: bool, node):
+        m = self.new_coll("iter")
+        fr = self.frames[-1]
+        tgt = ast.Name(id=f"__filter{self.fresh()}", ctx=ast.Store())
+
+        def body():
+            x = fr.env.vars[tgt.id]
+            n = len(self.ctx)
+            t = self.truth(self.call(pred, [x], {}, node)) if pred != NONE else self.truth(x)
+            self.ctx.append(("if", c_not(t) if negate else t))
+            self.add_item(m, x)
+            del self.ctx[n:]
+
+        self.iterate(iterable, tgt, fr, body, node)
+        fr.env.vars.pop(tgt.id, None)
+        return ("mcoll", m.cid)
+
     def call_ext(self, dotted, args, kwargs, node):
         a = [self.snapshot(x) for x in args]
         short = dotted.split(".")[-1]
@@ -1576,6 +1613,8 @@ class Evaluator:
             return ("mcoll", c.cid)
         if dotted in ("itertools.chain.from_iterable",) and len(a) == 1:
             return ("flatten", a[0])
+        if dotted == "itertools.filterfalse" and len(args) == 2 and not kwargs:
+            return self.filter_like(args[0], args[1], True, node)
         if dotted == "contextlib.suppress" and not kwargs:
             names = self.exc_type_names(("tuple", tuple(args)))
             if names is not None:
@@ -2068,7 +2107,16 @@ class Evaluator:
             f.env.vars = dict(env_vars)
 
     def s_Delete(self, s, fr):
-        self.problem("del statement", s)
+        for t in s.targets:
+            if isinstance(t, ast.Subscript) and not isinstance(t.slice, ast.Slice):
+                o = self.eval(t.value)
+                if o[0] == "mcoll" and self.heap_colls[o[1]].kind == "list":
+                    self.delete_at(self.heap_colls[o[1]], o, self.eval(t.slice), s)
+                    continue
+            if isinstance(t, ast.Name) and t.id in fr.env.vars:
+                del fr.env.vars[t.id]  # the name is gone; the value is untouched
+                continue
+            self.problem("del statement", s)
         return False
 
     def s_Try(self, s, fr):
